@@ -409,9 +409,11 @@ pub enum A {
     SetOther,
     GetOther,
     SetTtl,
+    SetCurTtl,
+    SetMax,
 }
 
-pub const ALPHA_C03: [A; 7] = [A::Get, A::Set, A::SetCur, A::SetStale, A::Del, A::DelCur, A::SetTtl];
+pub const ALPHA_C03: [A; 9] = [A::Get, A::Set, A::SetCur, A::SetStale, A::Del, A::DelCur, A::SetTtl, A::SetCurTtl, A::SetMax];
 pub const ALPHA_C05: [A; 8] = [A::Get, A::Set, A::SetTtl, A::Add, A::Append, A::Incr, A::Del, A::Replace];
 pub const ALPHA_C04: [A; 9] = [A::Add, A::Replace, A::Append, A::Prepend, A::Incr, A::Decr, A::Get, A::Set, A::Del];
 pub const ALPHA_C16: [A; 12] = [
@@ -440,6 +442,10 @@ pub fn concrete(a: A, client: usize, idx: usize, su: &Setup) -> Cmd {
         A::Get => Cmd::Get { key: 0, k: false, quiet: false },
         A::GetOther => Cmd::Get { key: 1, k: false, quiet: false },
         A::Set => Cmd::Store { op: op::SET, key: 0, value: tag, flags: client as u32 + 10, ttl: 0, cas: CasArg::Zero, quiet: false },
+        // a CAS store that carries a TTL shorter than the predecessor's age (stored at t=100, now t=200)
+        A::SetCurTtl => Cmd::Store { op: op::SET, key: 0, value: tag, flags: client as u32 + 50, ttl: 50, cas: CasArg::Raw(su.cur), quiet: false },
+        // CAS at the top of the range: cas + 1 does not exist
+        A::SetMax => Cmd::Store { op: op::SET, key: 0, value: tag, flags: client as u32 + 60, ttl: 0, cas: CasArg::Raw(u64::MAX), quiet: false },
         // at t=200 with a predecessor stored at t=100: old timestamp + 50 <= now < now + 50
         A::SetTtl => Cmd::Store { op: op::SET, key: 0, value: tag, flags: client as u32 + 40, ttl: 50, cas: CasArg::Zero, quiet: false },
         A::SetOther => Cmd::Store { op: op::SET, key: 1, value: vec![b'x'; 400], flags: 0, ttl: 0, cas: CasArg::Zero, quiet: false },
@@ -500,10 +506,12 @@ pub fn build_world(init: Init, policy: Option<u64>) -> (World, Setup, KS) {
         Init::Present => {
             su.cur = do_set(&mut conn, b"init", 0);
             ks = KS::Present { v: b"init".to_vec(), f: Some(7), c: su.cur, live: true, cl: false };
+            timer.set(200); // the predecessor has an age
         }
         Init::Counter => {
             su.cur = do_set(&mut conn, b"10", 0);
             ks = KS::Present { v: b"10".to_vec(), f: Some(7), c: su.cur, live: true, cl: false };
+            timer.set(200);
         }
         Init::Expired => {
             su.cur = do_set(&mut conn, b"old", 5);
@@ -790,7 +798,7 @@ fn check_history(ctx: &Ctx, sh: &Shared, p: &Program, sched_desc: String, out: &
         let ev = std::mem::replace(&mut *e, Evidence::new(ctx, "exploration", ""));
         std::process::exit(ev.finish());
     }
-    if p.policy.is_some() || out.history.iter().any(|o| matches!(o.cmd, Cmd::Flush { .. })) {
+    if p.policy.map(|l| l < (1 << 30)).unwrap_or(false) || out.history.iter().any(|o| matches!(o.cmd, Cmd::Flush { .. })) {
         // eviction may remove the key at any time, and a flush racing a read-modify-write is
         // outside C03/C04's quantifier: only completion is decided here (C16)
         *local.entry("completed_runs_with_eviction".into()).or_insert(0) += 1;
@@ -858,7 +866,8 @@ pub fn run(ctx: &Ctx) -> i32 {
     for init in &inits {
         for a in alpha.iter() {
             for b in alpha.iter() {
-                programs.push(Program { init: *init, clients: vec![vec![sym(*a)], vec![sym(*b)]], policy: None });
+                let policy = if (programs.len() % 3) == 1 { Some(1u64 << 40) } else { None };
+                programs.push(Program { init: *init, clients: vec![vec![sym(*a)], vec![sym(*b)]], policy });
             }
         }
     }
@@ -868,7 +877,13 @@ pub fn run(ctx: &Ctx) -> i32 {
         let init = inits[rng.gen_range(0..inits.len())];
         let nc = rng.gen_range(2..=3);
         let clients = (0..nc).map(|_| (0..rng.gen_range(1..=2)).map(|_| sym(alpha[rng.gen_range(0..alpha.len())])).collect()).collect();
-        let policy = if with_policy && rng.gen_bool(0.5) { Some([0u64, 30, 100, 500][rng.gen_range(0..4)]) } else { None };
+        let policy = if with_policy && rng.gen_bool(0.5) {
+            Some([0u64, 30, 100, 500][rng.gen_range(0..4)])
+        } else if rng.gen_bool(0.35) {
+            Some(1u64 << 40) // random policy with a limit that is never reached: no eviction can explain a lost item
+        } else {
+            None
+        };
         programs.push(Program { init, clients, policy });
     }
     if miri {
@@ -979,7 +994,7 @@ fn sym(a: A) -> Cmd {
 }
 
 fn unsym(c: &Cmd) -> Option<A> {
-    const ALL: [A; 17] = [
+    const ALL: [A; 19] = [
         A::Get,
         A::Set,
         A::SetCur,
@@ -997,6 +1012,8 @@ fn unsym(c: &Cmd) -> Option<A> {
         A::SetOther,
         A::GetOther,
         A::SetTtl,
+        A::SetCurTtl,
+        A::SetMax,
     ];
     match c {
         Cmd::Unimpl(x) if *x >= 0x80 => ALL.get((*x - 0x80) as usize).copied(),
@@ -1054,6 +1071,8 @@ fn stress(ctx: &Ctx, sh: &Shared, alpha: &[A]) {
                             (0..nthreads).map(|i| vec![sym([A::Del, A::Replace, A::Append, A::Incr][i % 4])]).collect(),
                         ),
                         ("C03", 0) => (Init::Present, (0..nthreads).map(|_| vec![sym(A::SetCur)]).collect()),
+                        ("C03" | "C02", 2) => (Init::Absent, (0..nthreads).map(|_| vec![sym(A::SetMax)]).collect()),
+                        ("C03" | "C02", 3) => (Init::Absent, (0..nthreads).map(|_| vec![sym(A::SetStale)]).collect()),
                         ("C03", 1) => (Init::Expired, (0..nthreads).map(|i| vec![sym(if i % 2 == 0 { A::Get } else { A::Set })]).collect()),
                         _ => {
                             let inits = [Init::Absent, Init::Present, Init::Expired, Init::Counter];
@@ -1063,7 +1082,13 @@ fn stress(ctx: &Ctx, sh: &Shared, alpha: &[A]) {
                             )
                         }
                     };
-                    let policy = if ctx.prop == "C16" && rng.gen_bool(0.6) { Some([0u64, 30, 100, 600, 5000][rng.gen_range(0..5)]) } else { None };
+                    let policy = if ctx.prop == "C16" && rng.gen_bool(0.6) {
+                        Some([0u64, 30, 100, 600, 5000][rng.gen_range(0..5)])
+                    } else if rng.gen_bool(0.3) {
+                        Some(1u64 << 40)
+                    } else {
+                        None
+                    };
                     let p0 = Program { init, clients, policy };
                     let (pm, _) = materialise(&p0);
                     let sched = if rng.gen_bool(0.5) { Sched::Free } else { Sched::Jitter(300, 60) };
@@ -1099,7 +1124,7 @@ fn conservation(_ctx: &Ctx, sh: &Shared, p: &Program, o: &RunOut, init: &KS, des
     // (1) at most one success per (key, CAS token): sound only while the key cannot become
     // absent in between (a CAS store on an absent key is outside any contract, L-a)
     let mut by_token: BTreeMap<u64, usize> = BTreeMap::new();
-    let can_vanish = p.policy.is_some() || !matches!(init, KS::Present { live: true, .. }) || h.iter().any(|x| matches!(x.cmd, Cmd::Delete { .. } | Cmd::Flush { .. }));
+    let can_vanish = p.policy.map(|l| l < (1 << 30)).unwrap_or(false) || matches!(init, KS::Present { live: false, .. }) || h.iter().any(|x| matches!(x.cmd, Cmd::Delete { .. } | Cmd::Flush { .. }));
     for x in h.iter().filter(|_| !can_vanish) {
         if x.cas != 0 && x.cmd.is_mutation() && x.resp.as_ref().map(|r| r.status == st::OK).unwrap_or(false) {
             *by_token.entry(x.cas).or_insert(0) += 1;
